@@ -186,16 +186,7 @@ func c04R1(c *Ctx) {
 		loaded := lhs[1]
 		keyObj := identObj(info, lo.Args[0])
 		// key shape
-		if keyObj != nil {
-			ds := varDefs(fn, keyObj)
-			if len(ds) == 1 && ds[0].rhs != nil {
-				shapes = append(shapes, shapeOf(p, info, ds[0].rhs, 0).String())
-			} else {
-				shapes = append(shapes, "?")
-			}
-		} else {
-			shapes = append(shapes, shapeOf(p, info, lo.Args[0], 0).String())
-		}
+		shapes = append(shapes, shapeOfVar(p, fn, lo.Args[0]))
 		q := NewPathQuery(p, fn, nil)
 		sc := stateCalls(c, fn)
 		// (a) LoadOrStore precedes every state call
